@@ -107,5 +107,7 @@ class SkewSymmetricLinearOperator(Function):
 
                 T[i, j] = - gi * gj + (self.L ** 2) * xi * xj
 
-        psd_matrix = PSDMatrix(matrix_of_expressions=T)
-        self.list_of_class_psd.append(psd_matrix)
+        # (no constraint when self has not been evaluated at all: the matrix is empty)
+        if N > 0:
+            psd_matrix = PSDMatrix(matrix_of_expressions=T)
+            self.list_of_class_psd.append(psd_matrix)
